@@ -81,6 +81,7 @@ func ConflatedContext(contexts ...context.Context) (ctx context.Context, cancel 
 	wg.Done() // decrement our first increment
 
 	go func() {
+		verifHook("conflated.spawn")
 		wg.Wait()
 		cancel() // combined cancel
 	}()
@@ -100,6 +101,7 @@ func ConflatedContext(contexts ...context.Context) (ctx context.Context, cancel 
 func ChainAfterFunc(ctx context.Context, other context.Context, f func()) {
 	stop := context.AfterFunc(other, f)
 	context.AfterFunc(ctx, func() {
+		verifHook("chain.primary")
 		if stop() {
 			// Stopped f from being run. Because this closure will only trigger
 			// on ctx cancel, and we otherwise never stop either hooks, this is
@@ -154,6 +156,7 @@ func CombineContext(ctx context.Context, others ...context.Context) context.Cont
 	}
 
 	// deregister all after funcs on cancel (it's a one-way transition)
+	verifHook("combine.registered")
 	context.AfterFunc(ctx, stops.Stop)
 
 	_ = cancel // silence go vet for not using cancel on all code paths
